@@ -104,6 +104,9 @@ func c23GenReply(rng *rand.Rand, pool [][]byte, list bool, kind string) c23Reply
 		}
 	case c23Failure:
 		rp.Msg = "scripted failure"
+		if rng.Intn(3) == 0 {
+			rp.Msg = "" // a failure without a message (what a node answers when it cannot decode the request)
+		}
 	}
 	rp.TypeB = []byte{wire.ConflictResponse, wire.KeyRequest, wire.QueryResponse, 0, 0xff, 77}[rng.Intn(6)]
 	rp.Cut = rng.Intn(1 << 16)
